@@ -30,11 +30,11 @@ CHECKS = {
  ),
  "C05": dict(
    engine="E2 Kani/CBMC",
-   technique="Kani proof harness over the real private handle_select_timeout (scratch copy of quiver-core with an appended child module); counterexamples replayed by Kani concrete playback",
+   technique="Kani proof harnesses over the real private handle_select_timeout and over the duration-conversion statements of its call site in process_select_sources, copied verbatim from the current source into a generated harness and applied to a symbolic arbitrary-precision duration through the real num-bigint (scratch copy of quiver-core with an appended child module); counterexamples replayed by Kani concrete playback",
    category="model_checking",
-   text="TIMEOUT CLAUSE ONLY. Decided for all (timeout: i64, start: u64, now: u64): a timeout source fires iff elapsed >= max(duration, 0) - never earlier than its duration after the select started waiting, a non-positive one at once - and yields nil. Source priority, mailbox order, filters, cursors, error propagation are NOT decided: that code owns Values and the process map, which CBMC cannot get through (DESIGN §2); a change there is not detected by this check.",
+   text="TIMEOUT CLAUSE ONLY. Decided for all (timeout: i64, start: u64, now: u64): a timeout source fires iff elapsed >= max(duration, 0) - never earlier than its duration after the select started waiting, a non-positive one at once - and yields nil. End to end (generated harness): for every duration in [-2^127, 2^127) and clocks below 2^62 ms the conversion statements of the call site followed by the kernel never fire before the mathematical duration, and fire an i64-range duration exactly when due. Source priority, mailbox order, filters, cursors, error propagation are NOT decided: that code owns Values and the process map, which CBMC cannot get through (DESIGN §2); a change there is not detected by this check.",
    design_ref="DESIGN.md §4 C05",
-   note="Trusted: Kani 0.68/CBMC 6.11; stub RandomState::new -> constant. Bound: none on the three scalars. Everything outside handle_select_timeout is outside the claim.",
+   note="Trusted: Kani 0.68/CBMC 6.11; stub RandomState::new -> constant. Bound: none on the three scalars of the kernel harness; 128-bit durations and clocks < 2^62 end to end. Of process_select_sources only the textually extracted conversion statements are executed; everything else outside handle_select_timeout is outside the claim.",
  ),
  "C13": dict(
    engine="E2 Kani/CBMC",
